@@ -21,5 +21,9 @@ EXTRAS = {
     "class_kw_super": "class A:\n    def m(self):\n        return 1\nclass B(A):\n    def m(self):\n        return super().m() + 1\nprint(B().m())\n",
     "global_nonlocal": "g = 0\ndef f():\n    global g\n    t = 0\n    def h():\n        nonlocal t\n        t += 1\n        return t\n    g = h()\nf()\nprint(g)\n",
     "import_forms": "import os.path\nimport json as j\nfrom math import floor as fl\nprint(os.path.sep, j.dumps([1]), fl(2.5))\n",
+    "super_in_loop": "class A:\n    def m(self):\n        return 1\nclass B(A):\n    def m(self):\n        t = 0\n        for i in range(2):\n            t += super().m()\n        while t < 5:\n            t += super().m()\n        return t\n    @classmethod\n    def c(cls):\n        for i in range(1):\n            return super().__name__ if False else cls.__name__\nprint(B().m(), B.c())\n",
+    "comprehension_in_method_self": "class A:\n    k = 2\n    def m(self):\n        return [self.k * i for i in range(3) if i != self.k]\nprint(A().m())\n",
+    "nested_function_in_loop": "fs = []\nfor i in range(3):\n    def f(j=i):\n        return j * 2\n    fs.append(f)\nprint([f() for f in fs], i)\n",
+    "class_in_loop": "out = []\nfor i in range(2):\n    class K:\n        v = i\n        def get(self):\n            return self.v\n    out.append(K().get())\nprint(out)\n",
     "aug_all": "x = 7\nx += 1\nx -= 2\nx *= 3\nx //= 2\nx %= 5\nx **= 2\nx <<= 1\nx >>= 1\nx &= 7\nx |= 8\nx ^= 3\nprint(x)\n",
 }
